@@ -11,6 +11,17 @@ from .facts import facts
 MQ = "gherkin.token_matcher.TokenMatcher"
 
 
+def _walk(node):
+    """ast.walk, with annotated assignments (``x: T = v``) presented as the plain assignments they are."""
+    for n in ast.walk(node):
+        if isinstance(n, ast.AnnAssign) and n.value is not None:
+            a = ast.Assign(targets=[n.target], value=n.value)
+            ast.copy_location(a, n)
+            yield a
+        else:
+            yield n
+
+
 class _Names:
     _cache: dict = {}
 
@@ -25,7 +36,7 @@ class _Names:
         def find():
             cls = facts().cls(MQ)
             for fi in cls.all_methods():
-                for n in ast.walk(fi.node):
+                for n in _walk(fi.node):
                     if isinstance(n, ast.Attribute) and isinstance(n.ctx, ast.Store) and n.attr == "matched_type" and isinstance(n.value, ast.Name) and n.value.id != "self":
                         return fi.name
             raise AnalysisError("anchor vanished: no TokenMatcher method stores token.matched_type (the matched-token sink)")
@@ -39,20 +50,20 @@ class _Names:
                 if fi.name in ("__init__", "reset"):
                     continue
                 looked = None
-                for n in ast.walk(fi.node):
+                for n in _walk(fi.node):
                     if isinstance(n, ast.Assign) and len(n.targets) == 1 and isinstance(n.targets[0], ast.Name) and isinstance(n.value, ast.Call) \
                             and isinstance(n.value.func, ast.Attribute) and n.value.func.attr == "for_name":
                         looked = n.targets[0].id
                 if looked is None:
                     # the look-up result may be stored at once: self.<dialect> = Dialect.for_name(...)
-                    for n in ast.walk(fi.node):
+                    for n in _walk(fi.node):
                         if isinstance(n, ast.Call) and isinstance(n.func, ast.Attribute) and n.func.attr == "for_name":
                             looked = ""
                     if looked is None:
                         continue
                 ps = fi.params()
                 dialect = dname = ktypes = None
-                for n in ast.walk(fi.node):
+                for n in _walk(fi.node):
                     if isinstance(n, ast.Assign):
                         for t in n.targets:
                             if isinstance(t, ast.Attribute) and isinstance(t.value, ast.Name) and t.value.id == ps[0]:
@@ -70,7 +81,7 @@ class _Names:
             for fi in cls.all_methods():
                 if fi.name in ("__init__", "reset"):
                     continue
-                for n in ast.walk(fi.node):
+                for n in _walk(fi.node):
                     if isinstance(n, ast.Attribute) and isinstance(n.ctx, ast.Store) and n.attr == "dialect" and isinstance(n.value, ast.Name) and n.value.id == "self":
                         return (fi.name, "dialect", "dialect_name", "keyword_types")
             raise AnalysisError("anchor vanished: no TokenMatcher method looks up and installs a dialect (the dialect switch)")
@@ -87,7 +98,7 @@ class _Names:
             sink = self.SINK
             ds_match = None
             for fi in cls.all_methods():
-                for n in ast.walk(fi.node):
+                for n in _walk(fi.node):
                     if isinstance(n, ast.Call) and isinstance(n.func, ast.Attribute) and n.func.attr == sink and len(n.args) >= 2 \
                             and isinstance(n.args[1], ast.Constant) and n.args[1].value == "DocStringSeparator":
                         ds_match = ds_match or fi.name
@@ -97,7 +108,7 @@ class _Names:
             per_fn: dict = {}
             for fi in cls.all_methods():
                 selfname = fi.params()[0] if fi.params() else None
-                for n in ast.walk(fi.node):
+                for n in _walk(fi.node):
                     tgts = []
                     if isinstance(n, ast.Assign):
                         tgts = [(t, n.value) for t in n.targets]
@@ -152,7 +163,7 @@ class _Names:
             cls = facts().cls(MQ)
             init = cls.find_method("__init__")
             p = init.params()
-            for n in ast.walk(init.node):
+            for n in _walk(init.node):
                 if isinstance(n, ast.Assign) and isinstance(n.targets[0], ast.Attribute) and isinstance(n.value, ast.Name) and len(p) > 1 and n.value.id == p[1]:
                     return n.targets[0].attr
             raise AnalysisError("anchor vanished: TokenMatcher.__init__ does not store its default dialect name")
@@ -164,7 +175,7 @@ class _Names:
         def find():
             cls = facts().cls("gherkin.ast_node.AstNode")
             init = cls.find_method("__init__")
-            for n in ast.walk(init.node):
+            for n in _walk(init.node):
                 tgt = val = None
                 if isinstance(n, ast.Assign):
                     tgt, val = n.targets[0], n.value
@@ -181,7 +192,7 @@ class _Names:
             init = cls.find_method("__init__")
             p = init.params()
             raw = trimmed = lineno = None
-            for n in ast.walk(init.node):
+            for n in _walk(init.node):
                 if isinstance(n, ast.Assign) and isinstance(n.targets[0], ast.Attribute):
                     a = n.targets[0].attr
                     v = n.value
@@ -195,14 +206,14 @@ class _Names:
             if trimmed is None:
                 # by use: the attribute the prefix test reads (what it holds is then checked by the line rules, not assumed)
                 sw = cls.find_method(self.line_helper("prefix") or "startswith")
-                for n in ast.walk(sw.node) if sw is not None else []:
+                for n in _walk(sw.node) if sw is not None else []:
                     if isinstance(n, ast.Call) and isinstance(n.func, ast.Attribute) and n.func.attr == "startswith" \
                             and isinstance(n.func.value, ast.Attribute) and isinstance(n.func.value.value, ast.Name) and n.func.value.value.id == sw.params()[0]:
                         trimmed = n.func.value.attr
             if lineno is None:
                 # by use: the attribute reported as the 'line' of a location built by this class
                 for mfi in cls.all_methods():
-                    for n in ast.walk(mfi.node):
+                    for n in _walk(mfi.node):
                         if isinstance(n, ast.Dict):
                             for k, v in zip(n.keys, n.values):
                                 if isinstance(k, ast.Constant) and k.value == "line" and isinstance(v, ast.Attribute) and isinstance(v.value, ast.Name) \
@@ -235,7 +246,7 @@ class _Names:
         def find():
             cls = facts().cls("gherkin.stream.id_generator.IdGenerator")
             init = cls.find_method("__init__")
-            for n in ast.walk(init.node):
+            for n in _walk(init.node):
                 if isinstance(n, ast.Assign) and isinstance(n.targets[0], ast.Attribute) and isinstance(n.value, ast.Constant) and n.value.value == 0:
                     return n.targets[0].attr
             raise AnalysisError("anchor vanished: IdGenerator.__init__ does not initialise a counter to 0")
@@ -246,7 +257,7 @@ class _Names:
         def find():
             cls = facts().cls("gherkin.token_formatter_builder.TokenFormatterBuilder")
             b = cls.find_method("build")
-            for n in ast.walk(b.node) if b else []:
+            for n in _walk(b.node) if b else []:
                 if isinstance(n, ast.Call) and isinstance(n.func, ast.Attribute) and n.func.attr == "append" and isinstance(n.func.value, ast.Attribute):
                     return n.func.value.attr
             return "_tokens"
@@ -265,14 +276,14 @@ class _Names:
             er = cls.find_method("end_rule")
             own = {m.name for c in cls.mro() for m in c.methods.values()}
             if er is not None:
-                for n in ast.walk(er.node):
+                for n in _walk(er.node):
                     # self.<current>.add(<type>, self.<transform>(node))
                     if isinstance(n, ast.Call) and len(n.args) == 2 and isinstance(n.args[1], ast.Call) and isinstance(n.args[1].func, ast.Attribute) \
                             and isinstance(n.args[1].func.value, ast.Name) and n.args[1].func.value.id == er.params()[0] and n.args[1].func.attr in own:
                         return n.args[1].func.attr
             best = None
             for fi in cls.all_methods():
-                k = sum(1 for n in ast.walk(fi.node) if isinstance(n, ast.Compare) and any(isinstance(c, ast.Constant) and isinstance(c.value, str) and c.value[:1].isupper()
+                k = sum(1 for n in _walk(fi.node) if isinstance(n, ast.Compare) and any(isinstance(c, ast.Constant) and isinstance(c.value, str) and c.value[:1].isupper()
                                                                                             for c in n.comparators))
                 if k >= 5 and (best is None or k > best[0]):
                     best = (k, fi.name)
@@ -287,13 +298,13 @@ class _Names:
         def find():
             cls = facts().cls(self.BQ)
             r = cls.find_method("reset")
-            for n in ast.walk(r.node) if r else []:
+            for n in _walk(r.node) if r else []:
                 if isinstance(n, ast.Assign) and isinstance(n.targets[0], ast.Attribute) and isinstance(n.value, ast.List) and n.value.elts \
                         and isinstance(n.value.elts[0], ast.Call):
                     return n.targets[0].attr
             # by use: the attribute start_rule appends to
             sr = cls.find_method("start_rule")
-            for n in ast.walk(sr.node) if sr else []:
+            for n in _walk(sr.node) if sr else []:
                 if isinstance(n, ast.Call) and isinstance(n.func, ast.Attribute) and n.func.attr == "append" and isinstance(n.func.value, ast.Attribute):
                     return n.func.value.attr
             raise AnalysisError("anchor vanished: AstBuilder keeps no stack of open nodes")
@@ -305,12 +316,12 @@ class _Names:
         def find():
             cls = facts().cls(self.BQ)
             b = cls.find_method("build")
-            for n in ast.walk(b.node) if b else []:
+            for n in _walk(b.node) if b else []:
                 if isinstance(n, ast.Call) and isinstance(n.func, ast.Attribute) and n.func.attr == "append" and isinstance(n.func.value, ast.Attribute) \
                         and isinstance(n.func.value.value, ast.Name) and n.func.value.value.id == b.params()[0]:
                     return n.func.value.attr
             r = cls.find_method("reset")
-            for n in ast.walk(r.node) if r else []:
+            for n in _walk(r.node) if r else []:
                 if isinstance(n, ast.Assign) and isinstance(n.targets[0], ast.Attribute) and isinstance(n.value, ast.List) and not n.value.elts:
                     return n.targets[0].attr
             raise AnalysisError("anchor vanished: AstBuilder collects no comments")
@@ -328,17 +339,17 @@ class _Names:
             out = []
             for fi in cls.all_methods():
                 aliases = set()
-                for n in ast.walk(fi.node):
+                for n in _walk(fi.node):
                     if isinstance(n, ast.Assign) and len(n.targets) == 1 and isinstance(n.targets[0], ast.Name) and isinstance(n.value, ast.Attribute) \
                             and n.value.attr == "line":
                         aliases.add(n.targets[0].id)
                 on_line = lambda e: (isinstance(e, ast.Attribute) and e.attr == "line") or (isinstance(e, ast.Name) and e.id in aliases)
                 calls = set()
-                for n in ast.walk(fi.node):
+                for n in _walk(fi.node):
                     if isinstance(n, ast.Call) and isinstance(n.func, ast.Attribute) and on_line(n.func.value):
                         out.append((fi, n.func.attr, n))
                         calls.add(id(n.func))
-                for n in ast.walk(fi.node):
+                for n in _walk(fi.node):
                     if isinstance(n, ast.Attribute) and id(n) not in calls and on_line(n.value) and isinstance(n.ctx, ast.Load):
                         out.append((fi, n.attr, None))
             return out
@@ -356,7 +367,7 @@ class _Names:
                     a = call.args
                     if fi.name == "match_Empty" and not a and not call.keywords:
                         r.setdefault("empty", member)
-                    if len(a) == 1 and any(isinstance(x, ast.Call) and isinstance(x.func, ast.Name) and x.func.id == "len" for x in ast.walk(a[0])):
+                    if len(a) == 1 and any(isinstance(x, ast.Call) and isinstance(x.func, ast.Name) and x.func.id == "len" for x in _walk(a[0])):
                         r.setdefault("rest", member)
                     if fi.name == "match_Other" or (len(a) == 1 and isinstance(a[0], ast.Attribute) and a[0].attr == self.DS_INDENT):
                         r.setdefault("text", member)
@@ -372,7 +383,7 @@ class _Names:
             # items= of the matched-token sink per kind
             cls = facts().cls(MQ)
             for fi in cls.all_methods():
-                for n in ast.walk(fi.node):
+                for n in _walk(fi.node):
                     if isinstance(n, ast.Call) and isinstance(n.func, ast.Attribute) and n.func.attr == sink and len(n.args) >= 2 and isinstance(n.args[1], ast.Constant):
                         for k in n.keywords:
                             if k.arg == "items" and isinstance(k.value, ast.Attribute):
@@ -405,7 +416,7 @@ class _Names:
                             gens.append(r[1].qualname)
             if not gens:
                 tc = cls.find_method(self.TABLE_CELLS)
-                for n in ast.walk(tc.node) if tc is not None else []:
+                for n in _walk(tc.node) if tc is not None else []:
                     if isinstance(n, ast.Call) and isinstance(n.func, ast.Name):
                         r = f.resolve_name(cls.module, n.func.id)
                         if r is not None and r[0] == "func" and is_gen(r[1]):
@@ -414,7 +425,7 @@ class _Names:
             if len(gens) > 1:
                 # several generators: the splitter is the one the cells property uses
                 tc = cls.find_method(self.TABLE_CELLS)
-                used = {n.attr for n in ast.walk(tc.node) if isinstance(n, ast.Attribute)} | {n.id for n in ast.walk(tc.node) if isinstance(n, ast.Name)} if tc else set()
+                used = {n.attr for n in _walk(tc.node) if isinstance(n, ast.Attribute)} | {n.id for n in _walk(tc.node) if isinstance(n, ast.Name)} if tc else set()
                 pick = [g for g in gens if g.rsplit(".", 1)[1] in used]
                 if len(pick) == 1:
                     return pick[0]
@@ -442,9 +453,9 @@ class _Names:
             for fi in cls.all_methods():
                 if fi.name.startswith("match_token_at_") or fi.name in ("parse", "__init__"):
                     continue
-                calls = [n for n in ast.walk(fi.node) if isinstance(n, ast.Call) and isinstance(n.func, ast.Attribute)]
-                raises = [n for n in ast.walk(fi.node) if isinstance(n, ast.Raise) and n.exc is not None]
-                names = {n.id for n in ast.walk(fi.node) if isinstance(n, ast.Name)} | {n.attr for n in ast.walk(fi.node) if isinstance(n, ast.Attribute)}
+                calls = [n for n in _walk(fi.node) if isinstance(n, ast.Call) and isinstance(n.func, ast.Attribute)]
+                raises = [n for n in _walk(fi.node) if isinstance(n, ast.Raise) and n.exc is not None]
+                names = {n.id for n in _walk(fi.node) if isinstance(n, ast.Name)} | {n.attr for n in _walk(fi.node) if isinstance(n, ast.Attribute)}
                 # reads one token: asks the scanner (``<context>.<scanner>.read()``)
                 for c in calls:
                     if c.func.attr == "read" and isinstance(c.func.value, ast.Attribute) and not c.args and not fi.name.startswith(("lookahead_", "match_")):
@@ -453,13 +464,13 @@ class _Names:
                     if c.func.attr == "popleft" and isinstance(c.func.value, ast.Attribute) and not fi.name.startswith(("lookahead_", "match_")):
                         r.setdefault("ctx_queue", c.func.value.attr)
                 # collects an error: raises the composite once the list is long enough
-                if any("CompositeParserException" in ast.unparse(x.exc) for x in raises) and not any(isinstance(n, ast.Try) for n in ast.walk(fi.node)):
+                if any("CompositeParserException" in ast.unparse(x.exc) for x in raises) and not any(isinstance(n, ast.Try) for n in _walk(fi.node)):
                     r.setdefault("add_error", fi.name)
                     for c in calls:
                         if c.func.attr == "append" and isinstance(c.func.value, ast.Attribute):
                             r.setdefault("ctx_errors", c.func.value.attr)
                 # runs an action under the error policy: a try block whose handlers name the composite error
-                for n in ast.walk(fi.node):
+                for n in _walk(fi.node):
                     if isinstance(n, ast.Try) and any(h.type is not None and "CompositeParserException" in ast.unparse(h.type) for h in n.handlers):
                         r.setdefault("handle_external_error", fi.name)
                 # dispatches on the state number (state, token, context)
@@ -468,13 +479,13 @@ class _Names:
             for fi in cls.all_methods():
                 if fi.name in r.values() or fi.name.startswith(("match_", "lookahead_")) or fi.name in ("parse", "__init__"):
                     continue
-                for n in ast.walk(fi.node):
+                for n in _walk(fi.node):
                     if isinstance(n, ast.Call) and isinstance(n.func, ast.Attribute) and n.func.attr == r.get("handle_external_error") \
                             and isinstance(n.func.value, ast.Name) and fi.params() and n.func.value.id == fi.params()[0]:
                         r.setdefault("handle_ast_error", fi.name)
             # the transition step, by use: ``state = self.<step>(state, token, context)`` in parse()
             p0 = cls.find_method("parse")
-            for n in ast.walk(p0.node) if p0 else []:
+            for n in _walk(p0.node) if p0 else []:
                 if isinstance(n, ast.Assign) and len(n.targets) == 1 and isinstance(n.targets[0], ast.Name) and isinstance(n.value, ast.Call) \
                         and isinstance(n.value.func, ast.Attribute) and isinstance(n.value.func.value, ast.Name) and n.value.func.value.id == p0.params()[0] \
                         and n.value.args and isinstance(n.value.args[0], ast.Name) and n.value.args[0].id == n.targets[0].id:
@@ -484,13 +495,13 @@ class _Names:
             # the matcher of the context: the attribute whose match_<Kind> methods the parser's match_<Kind> wrappers pass on
             for fi in cls.all_methods():
                 if fi.name.startswith("match_") and not fi.name.startswith("match_token"):
-                    for n in ast.walk(fi.node):
+                    for n in _walk(fi.node):
                         if isinstance(n, ast.Attribute) and n.attr == fi.name and isinstance(n.value, ast.Attribute):
                             r.setdefault("ctx_matcher", n.value.attr)
             # when the error list is kept by a helper outside the class, it is still the list ``parse`` tests / raises from
             if "ctx_errors" not in r:
                 p = cls.find_method("parse")
-                for n in ast.walk(p.node) if p else []:
+                for n in _walk(p.node) if p else []:
                     if isinstance(n, ast.Call) and "CompositeParserException" in ast.unparse(n.func) and n.args and isinstance(n.args[0], ast.Attribute):
                         r.setdefault("ctx_errors", n.args[0].attr)
             return r
@@ -522,7 +533,7 @@ class _Names:
             for fi in ms:
                 if fi is None or not fi.params():
                     continue
-                for n in ast.walk(fi.node):
+                for n in _walk(fi.node):
                     if isinstance(n, ast.Attribute) and n.attr == called and isinstance(n.value, ast.Attribute) and isinstance(n.value.value, ast.Name) \
                             and n.value.value.id == fi.params()[0]:
                         return n.value.attr
@@ -543,7 +554,7 @@ class _Names:
                 return "options"
             init = cls.find_method("__init__")
             ps = init.params() if init else []
-            for n in ast.walk(init.node) if init else []:
+            for n in _walk(init.node) if init else []:
                 if isinstance(n, ast.Assign) and isinstance(n.targets[0], ast.Attribute) and isinstance(n.value, ast.Name) and len(ps) > 1 and n.value.id == ps[1]:
                     return n.targets[0].attr
             return "options"
